@@ -320,6 +320,7 @@ func (g *gen) genFunc(kind string) {
 	}
 	sig.pure = f.pure
 	sig.recovers = f.recovers
+	sig.mayRecover = f.recovers
 	if f.recovers && !g.on(kRecoverHard) {
 		f.protected = true
 	}
